@@ -29,6 +29,10 @@ def search(tier, seed):
             return total, "two spellings of the same value parse to different values (or one is refused):\n%s\n -> %s\n%s\n -> %s" % (
                 C.show_input(ha), ra[:500], C.show_input(hb), rb[:500]), samples, differing
     samples.append("pair: %s | %s" % (C.show_input(rows[0][0], 70), C.show_input(rows[1][0], 70)))
+    npairs, bad = rtlib.range_metamorphic(seed)
+    total += npairs
+    if bad:
+        return total, bad, samples, differing
     return total, None, samples, differing
 
 
